@@ -257,100 +257,6 @@ func c14Prop(c *sim.Case) {
 }
 
 // selfTest: a planted leak must be detected, otherwise the scanner is broken (infrastructure error).
-// c14Chain: two OIDC filters in ONE chain. Whatever the first filter put on its OK (its tokens, meant for the
-// upstream) must not travel back to the browser when the second filter denies or redirects.
-func c14Chain(c *sim.Case) {
-	order := sim.Pick(c, "order", 16) // sharding draw
-	storeMode := []string{"memory", "redis"}[order%2]
-	idle := []int{0, 300}[(order/2)%2]
-	forwardAT := (order/4)%2 == 0
-	stop := sim.RealTimeRedis()
-	defer stop()
-	w := newC18World(c, 2, storeMode, [][2]int{{0, idle}, {0, idle}}, true)
-	defer w.close()
-	if !forwardAT {
-		w.fs[0].cfg.AccessToken, w.fs[1].cfg.AccessToken = nil, nil
-	}
-	m := &c14Mon{markers: map[string]marker{}}
-	learn := func() {
-		for _, f := range w.fs {
-			m.add("client-secret", f.cfg.GetClientSecret())
-			for _, tc := range f.idp.Calls(0) {
-				m.add("refresh-token", tc.NewRefresh)
-				m.add("access-token", tc.AccessToken)
-				m.addID(tc.IDToken)
-				m.add("pkce-verifier", tc.Verifier)
-			}
-		}
-	}
-	A, B := w.fs[0], w.fs[1]
-	jar := ""
-	send := func(what, path string) *sim.Resp {
-		r := w.check(A, path, jar)
-		learn()
-		c.Logf("%s %s cookie=%q -> %v", what, short(path, 60), short(jar, 80), r)
-		if kind, msg := m.scan(nil, nil, r.Raw); kind != "" {
-			where := "denial"
-			if r.OK {
-				where = "ok"
-			} else if r.IsRedirect() {
-				where = "redirect"
-			}
-			c.Violation("leak:"+kind+":"+where+":after-earlier-filter", "%s: %s", what, msg)
-		}
-		for _, sc := range r.SetCookies() {
-			if sc.Attrs["max-age"] != "0" && sc.Value != "" {
-				if jar != "" {
-					jar += "; "
-				}
-				jar += sc.Name + "=" + sc.Value
-			}
-		}
-		return r
-	}
-	// log in at the first filter
-	r := send("first request", "/app")
-	cb, _, err := A.idp.Authorize(r.Location(), "alice")
-	if err != nil {
-		c.Violation("login-failed", "provider of %s refused: %v", A.name, err)
-	}
-	send("callback of the first filter", cb[strings.Index(cb, "/cb-"):])
-	// now the first filter allows and the second one redirects to ITS provider
-	r = send("request with a session at the first filter only", "/app")
-	if !r.IsRedirect() || !strings.HasPrefix(r.Location(), B.idp.AuthURL()) {
-		c.Violation("chain-not-continued", "with a session at %s the request was answered %v, not redirected to the provider of %s", A.name, r, B.name)
-	}
-	denials := 1
-	switch sim.Pick(c, "second", 3) {
-	case 0: // complete the login at the second filter too
-		cb2, _, err := B.idp.Authorize(r.Location(), "alice")
-		if err != nil {
-			c.Violation("login-failed", "provider of %s refused: %v", B.name, err)
-		}
-		send("callback of the second filter", cb2[strings.Index(cb2, "/cb-"):])
-		denials++
-		if r = send("request with both sessions", "/app"); !r.OK {
-			c.Violation("chain-not-completed", "with sessions at both filters the request was answered %v", r)
-		}
-	case 1: // a forged callback for the second filter: an error answer behind the first filter's OK
-		send("forged callback for the second filter", "/cb-"+B.name+"?code=x&state=y")
-		denials++
-	case 2: // the second filter's provider fails the exchange
-		cb2, _, err := B.idp.Authorize(r.Location(), "alice")
-		if err != nil {
-			c.Violation("login-failed", "provider of %s refused: %v", B.name, err)
-		}
-		B.idp.Push(&sim.Behaviour{Name: "http-500", Status: 500})
-		send("callback of the second filter, provider fails", cb2[strings.Index(cb2, "/cb-"):])
-		denials++
-	}
-	if len(m.markers) >= 4 && denials >= 2 {
-		c.NonTrivial()
-	}
-	c.FP("chain", order, denials)
-	c.Class("chain:two-oidc-filters")
-}
-
 func c14SelfTest(t *testing.T, r *sim.Run) {
 	m := &c14Mon{markers: map[string]marker{}}
 	secret := "ZqSECRET+a/b c&d=e"
@@ -377,14 +283,13 @@ func TestC14(t *testing.T) {
 	r := sim.NewRun(t, "C14")
 	defer r.Finish()
 	c14SelfTest(t, r)
-	r.Rule = "the fault-injected histories of C01 with provider behaviours drawn from the C01 (failures), C02 (forged tokens) and C11 (refresh shapes) grammars; every secret is a unique marker (client secret with reserved characters, every access/refresh token, every ID token whole and per segment, every PKCE verifier learnt from the spy store); every CheckResponse is scanned field by field and serialised, for each marker raw, query-escaped, path-escaped, hex, and base64 (std/url, all three alignments). Part 'chain': two OIDC filters in one chain (memory / Redis, idle timeout on / off, access-token forwarding on / off): after a login at the first filter every redirect and error answer of the second one (login redirect, callback, forged callback, failed exchange) is scanned for the first filter's secrets. Non-trivial = a response was produced on an error path (fault fired, or the provider was contacted and the answer is not a redirect) while the presented session held secrets; distinct = distinct (config, step kinds and verdicts, fault plan)."
+	r.Rule = "the fault-injected histories of C01 with provider behaviours drawn from the C01 (failures), C02 (forged tokens) and C11 (refresh shapes) grammars; every secret is a unique marker (client secret with reserved characters, every access/refresh token, every ID token whole and per segment, every PKCE verifier learnt from the spy store); every CheckResponse is scanned field by field and serialised, for each marker raw, query-escaped, path-escaped, hex, and base64 (std/url, all three alignments). Non-trivial = a response was produced on an error path (fault fired, or the provider was contacted and the answer is not a redirect) while the presented session held secrets; distinct = distinct (config, step kinds and verdicts, fault plan)."
 	r.Assumptions = []string{"the ID token and, if configured, the access token in the OK response's upstream headers are the only permitted occurrences", "a planted leak is detected by the scanner in every run (self-test), otherwise the run aborts"}
-	parts := map[string]func(*sim.Case){"histories": c14Prop, "chain": c14Chain}
+	parts := map[string]func(*sim.Case){"histories": c14Prop}
 	if r.Replay != "" {
 		r.ReplayFile(parts)
 		return
 	}
 	r.CheckKnown(parts)
-	r.Exhaustive("chain", 0, c14Chain)
 	r.Rapid("histories", r.N(10000, 150000), c14Prop)
 }
